@@ -189,14 +189,11 @@ func (_this *cteListener) ExitValueInt(ctx *parser.ValueIntContext) {
 		_this.wrapPanic(recover(), ctx.BaseParserRuleContext)
 	}()
 
-	str := ctx.GetText()
-	str = strings.ReplaceAll(str, "_", "")
-	isNegative := false
-	if str[0] == '-' {
-		isNegative = true
-	}
+	// The base comes from the grammar's prefixes (0b, 0o, 0x) only: a decimal
+	// literal may have leading zeros, which must not be read as Go-style octal.
+	isNegative, str, base := splitIntLiteral(ctx.GetText())
 
-	if v, err := strconv.ParseInt(str, 0, 64); err == nil {
+	if v, err := strconv.ParseInt(str, base, 64); err == nil {
 		if v == 0 && isNegative {
 			_this.eventReceiver.OnNegativeInt(0)
 		} else {
@@ -206,7 +203,7 @@ func (_this *cteListener) ExitValueInt(ctx *parser.ValueIntContext) {
 	}
 
 	bigInt := &big.Int{}
-	if _, success := bigInt.SetString(str, 0); success {
+	if _, success := bigInt.SetString(str, base); success {
 		_this.eventReceiver.OnBigInt(bigInt)
 		return
 	}
@@ -1107,6 +1104,35 @@ func (_this *cteListener) ExitCommentBlock(ctx *parser.CommentBlockContext) {
 }
 
 // ---------------------------------------------------------------------------
+
+// splitIntLiteral splits an integer literal as accepted by the grammar
+// (NEG? (PREFIX_BIN | PREFIX_OCT | PREFIX_HEX)? DIGITS) into its sign, its base
+// and its digits (sign kept, prefix and digit separators removed) so that it
+// can be parsed with an explicit base.
+func splitIntLiteral(str string) (isNegative bool, signedDigits string, base int) {
+	str = strings.ReplaceAll(str, "_", "")
+	sign := ""
+	if len(str) > 0 && str[0] == '-' {
+		isNegative = true
+		sign = "-"
+		str = str[1:]
+	}
+	base = 10
+	if len(str) > 2 && str[0] == '0' {
+		switch str[1] {
+		case 'b', 'B':
+			base = 2
+		case 'o', 'O':
+			base = 8
+		case 'x', 'X':
+			base = 16
+		}
+		if base != 10 {
+			str = str[2:]
+		}
+	}
+	return isNegative, sign + str, base
+}
 
 func parseSmallUint(str string) uint64 {
 	if v, err := strconv.ParseUint(str, 0, 64); err == nil {
